@@ -70,7 +70,7 @@ def extra(ctx):
             elif name == "ON":
                 chain = " ".join(w["kind"] for w in (it.get("chain") or [])) or "-"
                 found.append({"what": "route %s %s registered at %s (chain: %s): a wrapper that reads the method or a header stands in front of optionalAuth, "
-                                      "so the refusal of an unauthenticated request may depend on them (C11_routes_refusal_uniform fails)"
+                                      "so the refusal of an unauthenticated request may depend on them"
                                       % (it.get("method") or "*", it["pattern"], it["pos"], chain),
                               "detail": it, "key": "route-not-blind:" + it["pattern"]})
             elif name == "OB":
@@ -105,6 +105,6 @@ def extra(ctx):
         return
     ctx.extra_discharged += len(routes) - len([f for f in found if f["key"].startswith("route:")])
     # put the precise statements first, so that the replay file names them
-    fails = [{"kind": "proof", "what": ("C11_startup_code fails: " if f["key"].startswith("startup:") else "C11_all_routes_guarded fails: ") + f["what"], "detail": f["detail"],
+    fails = [{"kind": "proof", "what": ("C11_startup_code fails: " if f["key"].startswith("startup:") else "C11_routes_refusal_uniform fails: " if f["key"].startswith("route-not-blind:") else "C11_all_routes_guarded fails: ") + f["what"], "detail": f["detail"],
               "finding_key": f["key"], "failing_input_found": False} for f in found]
     ctx.failures[:0] = fails
